@@ -111,6 +111,30 @@ Definition auction_block (c : cfgstate) (v : N) : result :=
   | Some d => if is_bad d v then RErr else if d_relay d then RFee (d_id d) else RNoRelays
   end.
 
+(* Requests made WITHOUT an account (the account argument of Service.ProposerConfig is nil): the
+   resolver then knows the validator by its public key only, which is how the harness's documents
+   name the validators, so the settings are the same as with the account.
+
+   ValidatorRegistrations (registrations forwarded by beacon nodes for validators Vouch does not
+   control): per registration ProposerConfig(ctx, nil, pubkey); on error the registration is skipped,
+   else it is handed to every relay of the settings.  Observable: forwarded to the relay ([RDone]) or
+   to nobody ([RNoRelays]). *)
+Definition forward_registration (c : cfgstate) (v : N) : result :=
+  match c with
+  | None => RNoRelays                                      (* fallback information names no relay *)
+  | Some d => if is_bad d v then RNoRelays else if d_relay d then RDone else RNoRelays
+  end.
+
+(* UnblindBlock -> unblindersForProposal: ProposerConfig(ctx, nil, pubkey); an error is returned as
+   "failed to obtain proposer configuration" ([RErr]); otherwise the relays of the settings are asked
+   for unblinding providers; the harness's relay does not unblind, so the call ends with "no
+   unblinders obtained" ([RNoRelays]). *)
+Definition unblinders_for_proposal (c : cfgstate) (v : N) : result :=
+  match c with
+  | None => RNoRelays
+  | Some d => if is_bad d v then RErr else RNoRelays
+  end.
+
 (* ============================================================================================ *)
 (* Part 2: RWMutex and thread programs                                                           *)
 
@@ -378,11 +402,27 @@ Definition leaf_mutexes (g : graph) (entries : list nat) : list mutex :=
 (* ============================================================================================ *)
 (* Part 4: hand transcription and scenario interpreter                                           *)
 
-Inductive kind := KLookup | KAuction | KReg | KRefresh.
+Inductive kind :=
+| KLookup | KAuction | KReg | KRefresh
+(* requests made without an account (account = nil): *)
+| KLookupNA     (* Service.ProposerConfig(ctx, nil, pubkey) *)
+| KBid          (* BuilderBid with nothing cached: builderBidMu; immediateBuilderBid -> auctionBlock(..., nil) *)
+| KFwd          (* ValidatorRegistrations of a validator Vouch does not control *)
+| KUnblind.     (* UnblindBlock -> unblindersForProposal *)
+
+(* the answer of a request of kind [k] for validator [v] resolved against configuration [c] *)
+Definition answer_of (k : kind) (c : cfgstate) (v : N) : result :=
+  match k with
+  | KAuction | KBid => auction_block c v
+  | KFwd => forward_registration c v
+  | KUnblind => unblinders_for_proposal c v
+  | _ => proposer_config c v
+  end.
 
 (* micro-steps of the four request kinds; each is one node of the lock graph plus a data action *)
 Inductive mstep :=
 | MNop
+| MForeign     (* acquisition of another mutex of the service (builderBidMu in BuilderBid), outside executionConfigMu *)
 | MRLock | MRUnlock | MLock | MUnlock
 | MGate        (* v2 ProposerConfig asks the account for its name: the harness can hold the request here, inside the read lock *)
 | MRead        (* resolve the settings from s.executionConfig *)
@@ -395,6 +435,7 @@ Inductive mstep :=
 Definition op_of_mstep (m : mstep) : op :=
   match m with
   | MRLock => ORLock | MRUnlock => ORUnlock | MLock => OLock | MUnlock => OUnlock
+  | MForeign => OBlock
   | _ => OSkip
   end.
 
@@ -414,6 +455,11 @@ Definition program (pre_fix : bool) (sp : spawn) : list mstep :=
       | AccSome => [MRLock; MStart; MRUnlock; MObtain; MLock; MWrite; MUnlock]
       | _ => [MNop]                                              (* early return before any lock *)
       end
+  (* without an account nobody is asked for a name: no MGate (setAccountName returns at once) *)
+  | KLookupNA => [MRLock; MRead; MRUnlock]
+  | KBid => [MForeign; MRLock; MRead; MRUnlock; MNop]            (* builderBidMu.Lock(); ...; deferred Unlock *)
+  | KFwd => [MNop; MRLock; MRead; MRUnlock; MNop]                (* controlledValidatorsMu (read, released); lookup; submit *)
+  | KUnblind => [MNop; MRLock; MRead; MRUnlock; MNop]            (* validators provider; lookup; providers *)
   end.
 
 (* a straight-line program becomes a chain of nodes starting at [base]; MBranchErr has a second
@@ -440,9 +486,11 @@ Fixpoint layout (base : nat) (ps : list (list mstep)) : list mstep * prog * list
 Definition mk_spawn (k : kind) (acc : accounts_outcome) : spawn :=
   {| sp_kind := k; sp_v := 0%N; sp_gate := false; sp_ref := {| rf_acc := acc; rf_fetch := FErr |} |}.
 
-(* the request kinds of the service: lookup, auction, registration round, refresh, refresh that returns early *)
+(* the request kinds of the service: lookup, auction, registration round, refresh, refresh that returns
+   early, and the requests made without an account *)
 Definition request_kinds : list spawn :=
-  [mk_spawn KLookup AccSome; mk_spawn KAuction AccSome; mk_spawn KReg AccSome; mk_spawn KRefresh AccSome; mk_spawn KRefresh AccErr].
+  [mk_spawn KLookup AccSome; mk_spawn KAuction AccSome; mk_spawn KReg AccSome; mk_spawn KRefresh AccSome; mk_spawn KRefresh AccErr;
+   mk_spawn KLookupNA AccSome; mk_spawn KBid AccSome; mk_spawn KFwd AccSome; mk_spawn KUnblind AccSome].
 
 Definition hand_layout (pre_fix : bool) := layout 0 (map (program pre_fix) request_kinds).
 Definition hand_prog : prog := snd (fst (hand_layout false)).
@@ -481,10 +529,7 @@ Section Scenario.
   Definition data_action (m : mstep) (cfg : cfgstate) (ti : tinfo) : cfgstate * tinfo :=
     match m with
     | MRead =>
-        let r := match sp_kind (ti_sp ti) with
-                 | KAuction => auction_block cfg (sp_v (ti_sp ti))
-                 | _ => proposer_config cfg (sp_v (ti_sp ti))
-                 end in
+        let r := answer_of (sp_kind (ti_sp ti)) cfg (sp_v (ti_sp ti)) in
         (cfg, {| ti_sp := ti_sp ti; ti_open := ti_open ti; ti_local := ti_local ti; ti_res := r |})
     | MStart => (cfg, {| ti_sp := ti_sp ti; ti_open := ti_open ti; ti_local := cfg; ti_res := ti_res ti |})
     | MObtain =>
